@@ -1869,7 +1869,8 @@ func ruleR14_8(r *Run) {
 				return true
 			}
 			if ifi, ok := in.(*ssa.If); ok {
-				for _, sc := range calls(ex) {
+				// (in whichever function the instruction lives: the release loop may sit in a helper of Execute)
+				for _, sc := range calls(ifi.Parent()) {
 					if isStop(sc) && guardedByEdge(ifi, 0, sc) && ifi.Block().Dominates(sc.Block()) && blockReaches(sc.Block(), ifi.Block()) {
 						return true
 					}
